@@ -25,13 +25,22 @@ class MethodSpec:
         self.pre = ""             # extra statements at the start of an implementation body
         self.typed_recv = False   # write the receiver as `self: &Self` / `self: &'a Self`
         self.recv_mut = False     # `&mut self` (set by C07 for statically delegated traits only)
+        self.extra_tparam = False # a method type parameter `U: 'static` that no argument mentions (callers need a turbofish)
 
     def generics_text(self, extra_first=None):
         items = list(self.lifetimes)
         if extra_first:
             items += extra_first
         items += ["%s%s" % (n, (": " + " + ".join(b)) if b else "") for n, b in self.mgenerics]
+        if self.extra_tparam:
+            items.append("U: 'static")
         return ("<" + ", ".join(items) + ">") if items else ""
+
+    def cname(self):
+        """The method name as a caller has to write it (turbofish when a type parameter cannot be inferred)."""
+        if self.extra_tparam:
+            return "%s::<%s>" % (self.name, ", ".join(["_"] * len(self.mgenerics) + ["u8"]))
+        return self.name
 
     def ret_text(self):
         if self.ret == "unit":
@@ -93,8 +102,10 @@ class MethodSpec:
         return setups, exprs, dbg
 
 
-def random_method(rng, name, allow_async=True, allow_generic=True, dyn_safe=False, trait_generic=False, max_arity=4):
+def random_method(rng, name, allow_async=True, allow_generic=True, dyn_safe=False, trait_generic=False, max_arity=4, uninferable=False):
     m = MethodSpec(name)
+    if uninferable and allow_generic and not dyn_safe and rng.random() < 0.12:
+        m.extra_tparam = True
     m.is_async = allow_async and rng.random() < 0.4
     taken = {name}
     last = None
@@ -193,7 +204,7 @@ class TraitSpec:
         return "\n".join(L)
 
 
-def random_trait(rng, name="Tr", dyn_safe=False, allow_async=True, with_async_trait=False, allow_generic_trait=True, nmethods=None):
+def random_trait(rng, name="Tr", dyn_safe=False, allow_async=True, with_async_trait=False, allow_generic_trait=True, nmethods=None, uninferable=False):
     t = TraitSpec(name)
     t.vis = rng.choice(["", "pub", "pub(crate)"])
     t.attrs = rng.sample(TRAIT_ATTRS, rng.randint(0, 2)) if rng.random() < 0.5 else []
@@ -220,7 +231,7 @@ def random_trait(rng, name="Tr", dyn_safe=False, allow_async=True, with_async_tr
             m = copy.deepcopy(first)
             m.name = "m%d" % i
         else:
-            m = random_method(rng, "m%d" % i, allow_async=allow_async, allow_generic=not dyn_safe, dyn_safe=dyn_safe, trait_generic=t.generic)
+            m = random_method(rng, "m%d" % i, allow_async=allow_async, allow_generic=not dyn_safe, dyn_safe=dyn_safe, trait_generic=t.generic, uninferable=uninferable)
             if first is None:
                 first = m
         t.methods.append(m)
